@@ -34,12 +34,17 @@ type solverDef struct {
 var solvers = []solverDef{
 	{"z3-new", func(f string, t int) []string { return []string{"z3-new", fmt.Sprintf("-T:%d", t), "-smt2", f} }},
 	{"z3", func(f string, t int) []string { return []string{"z3", fmt.Sprintf("-T:%d", t), "-smt2", f} }},
+	// the same solver with another seed and eager instantiation: quantifier-heavy
+	// goals are seed-sensitive, a second configuration makes the race more stable
+	{"z3-new/eager", func(f string, t int) []string {
+		return []string{"z3-new", "smt.random_seed=42", "smt.qi.eager_threshold=2", fmt.Sprintf("-T:%d", t), "-smt2", f}
+	}},
 	{"cvc5", func(f string, t int) []string {
 		return []string{"cvc5", fmt.Sprintf("--tlimit=%d", t*1000), "--full-saturate-quant", f}
 	}},
 }
 
-const solverVersions = "z3-new=5.1.0;z3=4.8.12;cvc5=1.0.3;v3"
+const solverVersions = "z3-new=5.1.0;z3=4.8.12;cvc5=1.0.3;v4"
 
 var fileSeq int64
 var cacheDir = ""
